@@ -383,7 +383,7 @@ func runC20(c *core.Ctx) {
 	}
 	// long bursts with repeated ports
 	for _, n := range []int{5, 100, 101, 150} {
-		for _, shape := range []string{"tcp-only", "udp-only", "mixed"} {
+		for _, shape := range []string{"tcp-only", "udp-only", "mixed", "udp-sweep", "tcp-late-port"} {
 			n, shape := n, shape
 			c.Case(fmt.Sprintf("burst/long/%d/%s", n, shape), func() {
 				var steps []burstStep
@@ -394,6 +394,13 @@ func runC20(c *core.Ctx) {
 						p = probe{"tcp", uint16(8081 + i%4)}
 					case "udp-only":
 						p = probe{"udp", uint16(9 + i%4)}
+					case "udp-sweep": // every probe a new port
+						p = probe{"udp", uint16(3000 + i)}
+					case "tcp-late-port": // one port over and over, a new one only at the very end
+						p = probe{"tcp", 8081}
+						if i == n-1 {
+							p = probe{"tcp", 8099}
+						}
 					default:
 						p = alpha[i%len(alpha)]
 					}
